@@ -126,12 +126,12 @@ def _levels_for(op):
         return [83696968 + HARD, 128169 + HARD, op["a"] + HARD, op["i"] + HARD]
     if op["op"] == "bip85_pwd":
         return [83696968 + HARD, 707764 + HARD, op["a"] + HARD, op["i"] + HARD]
-    if op["op"] in ("generate_children", "addr_gen"):
+    if op["op"] in ("generate_children", "addr_gen", "pub_generate_children", "pub_addr_gen"):
         return list(op["il"])          # SIBLINGS of one parent, not a chain
     return []
 
 
-SIBLING_OPS = ("generate_children", "addr_gen")
+SIBLING_OPS = ("generate_children", "addr_gen", "pub_generate_children", "pub_addr_gen")
 BIP85_FREE = ("bip85_mnemonic", "bip85_hex", "bip85_pwd")   # final HMAC output has no validity constraint
 
 
@@ -196,7 +196,7 @@ def _rand_index(rng, hardened=None):
     return rng.choice(IDX + [rng.randrange(2 ** 32), band, HARD + band])
 
 
-def _op_for_cell(rng, cell, out):
+def _op_for_cell(rng, cell, out, bulk=False):
     site, kind, pos = cell
     aux = gen_scalar(rng, "lz")
     if site == "master":
@@ -215,6 +215,13 @@ def _op_for_cell(rng, cell, out):
             il.append(_rand_index(rng, hardened=(site == "prv-hardened")))
         else:
             il.append(_rand_index(rng, hardened=False if pub else None))
+    if n == 1 and bulk and il[0] + 1 < 2 ** 32 and (il[0] + 1 < HARD or il[0] >= HARD) and not (pub and il[0] + 1 >= HARD):
+        # the same single faulty derivation reached through the bulk route: generate_children over [i, i+2) or
+        # [i-1, i+1), fault on the first or second sibling
+        second = rng.random() < 0.5 and il[0] >= 1 and il[0] != HARD
+        a_ = il[0] - 1 if second else il[0]
+        return {"op": ("pub_" if pub else "") + "generate_children", "h": "r", "il": [a_, a_ + 1],
+                "faults": {str(1 if second else 0): [kind, aux]}}
     if n == 1:
         op = {"op": "pub_ckd" if pub else "ckd", "h": "r", "i": il[0], "out": out}
     else:
@@ -313,8 +320,10 @@ def gen_plan(prop, seed, tier, idx):
             op = {"op": "generate_children", "h": h, "il": [a_, a_ + 1][:rng.randint(1, 2)]}
             if op["il"][-1] >= 2 ** 32:
                 op["il"] = [0, 1]
+            if op["il"][-1] < HARD and rng.random() < 0.4:
+                op["op"] = "pub_generate_children"      # the watch-only side of the same bulk route
         elif x < 0.90:
-            op = {"op": "addr_gen", "h": h, "il": [0, 1][:rng.randint(1, 2)]}
+            op = {"op": rng.choice(["addr_gen", "addr_gen", "pub_addr_gen"]), "h": h, "il": [0, 1][:rng.randint(1, 2)]}
         else:
             op = {"op": "master", "seed_hex": rng.randbytes(rng.choice([16, 32, 64])).hex(),
                   "testnet": rng.random() < 0.5, "via": rng.choice(MASTER_VIAS), "out": out}
@@ -334,9 +343,9 @@ def gen_plan(prop, seed, tier, idx):
             op.pop("out", None)
         ops.append(op)
     if cell is not None:
-        op = _op_for_cell(rng, cell, "cell")
+        op = _op_for_cell(rng, cell, "cell", bulk=(idx >= len(cells) and rng.random() < 0.5))
         if "h" in op:
-            lv = len(_levels_for(op))
+            lv = 1 if op["op"] in SIBLING_OPS else len(_levels_for(op))
             ok = [h for h in handles if hdepth[h] + lv <= 255]
             op["h"] = rng.choice(ok) if ok else "r"
         ops.append(op)
@@ -594,6 +603,16 @@ def _run_child(plan):
                 w = BaseWallet(master=sut_par, testnet=ref_par.testnet)
                 g_ = w.address_generator(sut_par)
                 result = [next(g_) for _ in op["il"]]
+            elif kind in ("pub_generate_children", "pub_addr_gen"):
+                seam.handler = None
+                twin = PubKeyNode.parse(ref_par.xpub(), testnet=ref_par.testnet)
+                seam.handler = ls
+                if kind == "pub_generate_children":
+                    result = twin.generate_children(interval=(op["il"][0], op["il"][-1] + 1))
+                else:
+                    w = BaseWallet(master=twin, testnet=ref_par.testnet)
+                    g_ = w.address_generator(twin)
+                    result = [next(g_) for _ in op["il"]]
             else:
                 raise core.HarnessError("unknown op %r" % kind)
         except core.HarnessError:
@@ -617,10 +636,10 @@ def _run_child(plan):
         if exc is None:
             try:
                 if kind in SIBLING_OPS:
-                    if kind == "generate_children":
-                        rec["result"] = [_canon(x, prv=True) for x in result]
+                    if kind in ("generate_children", "pub_generate_children"):
+                        rec["result"] = [_canon(x, prv=not pub) for x in result]
                         if ls.invalid_at is None:
-                            rec["expected"] = [_ref_canon(r, prv=True) for r in ls.refs]
+                            rec["expected"] = [_ref_canon(r, prv=not pub) for r in ls.refs]
                     else:
                         rec["result"] = [list(x) for x in result]
                         rec["expected"] = rec["result"]          # addresses are C05; only raise/return is judged
@@ -744,7 +763,7 @@ class DerivationSim(Simulator):
                 if r["exc"] is not None or r.get("result") != r.get("expected") or r["layout_bad"]:
                     oos += 1            # public-side value agreement is C02 (not claimed)
                 continue
-            if r["op"] in BIP85_FREE or r["op"] == "addr_gen":
+            if r["op"] in BIP85_FREE or r["op"] in ("addr_gen", "pub_addr_gen"):
                 if r["exc"] is not None:
                     oos += 1            # BIP85 values are C12, addresses C05 (not claimed); C18 judges the raise side
                 continue
